@@ -92,6 +92,13 @@ def step (toks : List String) : String :=
         hxs [o.a, o.lambda, o.k, o.h, o.ix, o.iy]
       | _ => "bad-op"
     | none => "bad-op"
+  | "pyfmt" :: G :: t :: rest =>
+    match partOf rest with
+    | some (com, kv) =>
+      match frontPy vr RV.Gen.C11.pyTab (fl G) (fl t) com (fargsOf kv) with
+      | .error n => s!"E{n}"
+      | .ok p => partStr p
+    | none => "bad-op"
   | "fmt" :: G :: t :: rest =>
     match partOf rest with
     | some (com, kv) =>
